@@ -20,6 +20,12 @@ strategy = c03.strategy
 
 
 def run_case(case):
+    with core.grad_ctx(case.get('ctx')):
+        r = _run_case(case)
+    return r.label('ctx_' + case['ctx']) if case.get('ctx', 'default') != 'default' else r
+
+
+def _run_case(case):
     from pytorch_wavelets import DTCWTForward, DTCWTInverse
     r = Result()
     b, q, J = case['biort'], case['qshift'], case['J']
